@@ -474,6 +474,36 @@ func jobC11(c *rt.Ctx) {
 			}
 		}
 	}
+	// the package's functions used together: a key conversion of every special encoding (identity,
+	// y = -1, y = 0, y >= p, undecodable) and then the generic and the fast path on an RFC 7748 vector
+	c.Require("conversion-then-ladder")
+	{
+		specials := [][]byte{}
+		for _, y := range []*big.Int{big.NewInt(1), badd(ref.P, -1), big.NewInt(0), badd(ref.P, 1), big.NewInt(2), badd(ref.P, 0)} {
+			for sgn := 0; sgn < 2; sgn++ {
+				b := ref.ToLE(y, 32)
+				b[31] |= byte(sgn) << 7
+				specials = append(specials, b)
+			}
+		}
+		for si, sp := range specials {
+			if !c.Take() {
+				continue
+			}
+			c.Class("conversion-then-ladder")
+			c.Distinct(fmt.Sprintf("conv-then %d", si), true)
+			EdPublicKeyToX25519(sp)
+			h := sha512.Sum512([]byte{0xC6, byte(si)})
+			sc, pt := h[:32], h[32:]
+			out, err := X25519(sc, pt)
+			outB, errB := X25519(sc, Basepoint)
+			c.Step(3)
+			want, wantB := ref.X25519(sc, pt), ref.X25519(sc, nine)
+			if err != nil || errB != nil || !bytes.Equal(out, want) || !bytes.Equal(outB, wantB) {
+				c.Violation("C11 conversion-then-ladder", fmt.Sprintf("after EdPublicKeyToX25519(%x): X25519(%x, %x) = %x (RFC 7748: %x), base-point path %x (RFC 7748: %x)", sp, sc, pt, out, want, outB, wantB), map[string]interface{}{"converted_key": ref.Hex(sp)})
+			}
+		}
+	}
 	// in-place calls of the array functions: the output array is also the point (the natural way to
 	// write the RFC 7748 iteration) or the scalar
 	c.Require("array-aliasing")
